@@ -160,3 +160,41 @@ func vhC12ServeConnBalance() {
 		vAssert("open-connections-return-to-zero", s.GetOpenConnectionsCount() == 0)
 	}
 }
+
+// vhC12ServeConnOverflow: ServeConn calls that overlap. With Concurrency = 1
+// the second (and third) call arrives while the first connection's handler is
+// still running and is refused (ErrConcurrencyLimit, 503); once everything has
+// returned the counters are back where they started, and a later connection is
+// served again.
+func vhC12ServeConnOverflow() {
+	s := &Server{NoDefaultDate: true, NoDefaultServerHeader: true, Concurrency: 1}
+	handled := 0
+	s.Handler = func(ctx *RequestCtx) {
+		handled++
+		if string(ctx.Path()) == "/slow" {
+			time.Sleep(50 * time.Millisecond)
+		}
+		ctx.SetBodyString("ok")
+	}
+	first := &vsSegConn{segs: [][]byte{[]byte("GET /slow HTTP/1.1\r\nHost: a\r\nConnection: close\r\n\r\n")}}
+	firstDone := make(chan error, 1)
+	go func() { firstDone <- s.ServeConn(first) }()
+	time.Sleep(10 * time.Millisecond) // the first handler is running now
+	extra := 1 + vChoose("extraOverlapping", 2)
+	refused := 0
+	for i := 0; i < extra; i++ {
+		c := &vsSegConn{segs: [][]byte{[]byte("GET /x HTTP/1.1\r\nHost: a\r\nConnection: close\r\n\r\n")}}
+		err := s.ServeConn(c)
+		if err == ErrConcurrencyLimit && len(c.wrote) >= 12 && string(c.wrote[:12]) == "HTTP/1.1 503" && c.closed == 1 {
+			refused++
+		}
+	}
+	err1 := <-firstDone
+	vAssert("overlapping-connections-are-refused-with-503-and-closed", refused == extra && err1 == nil && handled == 1)
+	vAssert("concurrency-returns-to-zero", s.GetCurrentConcurrency() == 0)
+	vAssert("open-counter-balanced", s.open.Load() == 0)
+	// and the server serves again
+	c := &vsSegConn{segs: [][]byte{[]byte("GET /x HTTP/1.1\r\nHost: a\r\nConnection: close\r\n\r\n")}}
+	err := s.ServeConn(c)
+	vAssert("served-again-afterwards", err == nil && handled == 2 && s.open.Load() == 0)
+}
